@@ -73,6 +73,29 @@ pub fn c03(cx: &mut Ctx) {
             cx.op("canproceed");
         }
     }
+    // the caller supplied everything the analysis would add (Host, framing): the body writer must still be
+    // set up once and remember that the body ended
+    for (vi, hs) in [vec![("host", &b"h.test"[..]), ("transfer-encoding", &b"chunked"[..])],
+                     vec![("transfer-encoding", &b"Chunked"[..]), ("host", &b"h.test"[..]), ("x-a", &b"1"[..])],
+                     vec![("host", &b"h.test"[..])]].iter().enumerate() {
+        for first in [0usize, 1, 5] {
+            for cap in [5usize, 6, 64] {
+                cx.case("own");
+                cx.rec.new_flow(&format!("POST HTTP/1.1 http://a.test/p {}", super::hdrs(hs)));
+                cx.op("proceed"); cx.op("write 4096"); cx.op("proceed");
+                if cx.rec.state() != "sendBody" { continue; }
+                bwrite(cx, vi, first, 64);
+                bwrite(cx, 0, 0, cap);
+                cx.op("canproceed");
+                bwrite(cx, 0, 0, cap);          // a second end-of-body write emits nothing
+                bwrite(cx, 0, 0, 64);
+                cx.op("canproceed");
+                bwrite(cx, 9, 3, 64);           // content after the end is refused
+                cx.op("canproceed");
+                cx.op("proceed");
+            }
+        }
+    }
     // random sequences
     let n = if cx.thorough { 6000 } else { 600 };
     for _ in 0..n {
@@ -211,6 +234,17 @@ pub fn c18(cx: &mut Ctx) {
             if m > 0 {
                 bwrite(cx, n, m, n);
             }
+        }
+    }
+    // an HTTP/1.0 request without Content-Length is framed chunked as well: the advertised size must follow
+    for batch in [[0usize, 1, 5, 6, 8, 9, 10, 21, 22, 100, 263, 4104, 10248, 10249, 10300, 20505]].iter() {
+        cx.case("v10");
+        if !to_send_body(cx, "POST", "HTTP/1.0", None, false) { continue; }
+        cx.op("chunked?");
+        for &n in batch.iter() {
+            let res = cx.op(&format!("maxin {}", n));
+            let m: usize = res.split(' ').nth(1).unwrap_or("0").parse().unwrap_or(0);
+            if m > 0 { bwrite(cx, n, m, n); }
         }
     }
     // framing chosen by the caller's headers, in the spellings the request analysis accepts
